@@ -39,7 +39,7 @@ from simkit.runner import digest
 ID = "C15"
 LEVEL = "exploration"
 TIERS = {
-    "quick": {"runs": 400, "wall": 60, "run_timeout": 120, "shrink_s": 40, "valid_draws": 40, "law_draws": 150},
+    "quick": {"runs": 4000, "wall": 60, "run_timeout": 120, "shrink_s": 40, "valid_draws": 40, "law_draws": 150},
     "thorough": {"runs": 30000, "wall": 1000, "run_timeout": 240, "shrink_s": 120, "valid_draws": 60, "law_draws": 400},
 }
 RULE = ("case = seeded regime: custom parameters (2..4 annotators, counts, gaps, durations, 2..4 categories with weights or None; "
